@@ -507,6 +507,26 @@ func c02JudgeTs(x *c02Ctx, rec *consumerRec) {
 			return
 		}
 	}
+	// audio: whatever is replayed or forwarded belongs to the incarnation of the join (a batch of audio
+	// the remuxer still held when the previous input left must not come back through the GOP cache)
+audio:
+	for _, p := range d.Out {
+		if p.PID != 0x101 {
+			continue
+		}
+		for _, t := range gen.FindTags(p.Data) {
+			if t.Idx >= gen.SeqHdrTagBase {
+				continue
+			}
+			if t.Idx >= end {
+				break audio
+			}
+			if t.Idx < start {
+				x.bad("ts", "replay-foreign-incarnation/audio", "an audio PES carries frame %d, published before this incarnation started at %d", t.Idx, start)
+				return
+			}
+		}
+	}
 	firstVideo := true
 	for _, p := range d.Out {
 		tags := gen.FindTags(p.Data)
